@@ -38,7 +38,7 @@ def correspondence(ctx):
     n = ctx.n(160, 3000)
     cases = []
     for _ in range(n):
-        ops = SL.gen_history(rng, rng.randrange(10, 40), mc_share=0.9)
+        ops = SL.gen_history(rng, rng.randrange(10, 40), mc_share=0.9, seeds=True)
         s, outs = SL.run_history(ops)
         cases.append((ops, outs))
         res.evaluations += 1
@@ -115,7 +115,7 @@ def search(ctx, suspects, budget):
         elif time.time() - t0 > budget:
             break
         else:
-            ops = SL.gen_history(ctx.rng, ctx.rng.randrange(8, 30), mc_share=0.9)
+            ops = SL.gen_history(ctx.rng, ctx.rng.randrange(8, 30), mc_share=0.9, seeds=True)
         n += 1
         sub = random.Random(ctx.rng.randrange(2 ** 30))
         why = oracle(ops, sub)
